@@ -173,6 +173,10 @@ type Options struct {
 	// MaxRecords-th record (a caller that abandons the file there). The
 	// whole line is still applied, so Records may hold a few more.
 	MaxRecords int
+	// MaxLineNo > 0 makes Read stop after line MaxLineNo has been applied (a
+	// caller that abandoned the file while records of that line were being
+	// delivered).
+	MaxLineNo int
 }
 
 // Outcome is what one file yields.
@@ -373,6 +377,9 @@ func (m *Model) Read(fileName, text string, opt Options) Outcome {
 				out.Stats.Sets++
 				config[key] = val
 			}
+		}
+		if opt.MaxLineNo > 0 && lineNo >= opt.MaxLineNo {
+			break
 		}
 		if opt.MaxRecords > 0 && len(out.Records) >= opt.MaxRecords {
 			break
